@@ -243,7 +243,7 @@ func (a *AttributeScope) Name(att *expr.AttributeExpr, pkg string, ptr, useDefau
 		// in fact the struct typedef. In this case we need to force the
 		// generation of the fields as pointers if needed as the default
 		// GoTransform algorithm does not allow for an override.
-		return a.scope.GoTypeDef(att, ptr, useDefault)
+		return a.scope.GoFullTypeDef(att, ptr, useDefault, pkg)
 	}
 	return a.scope.GoFullTypeName(att, pkg)
 }
